@@ -30,7 +30,7 @@ pub fn gen(seed: u64, n: usize) -> Result<Vec<Value>> {
 	let mut out = vec![];
 	while out.len() < n {
 		let cfg = TreeCfg { classes: r.gen_range(0..14), p_missing: *pick(&mut r, &[0.0, 0.2, 0.5]), unicode: r.gen_bool(0.3),
-			param_src: r.gen_bool(0.5), root_doc: r.gen_bool(0.3), p_doc: *pick(&mut r, &[0.0, 0.2, 0.5]), ..TreeCfg::default() };
+			param_src: r.gen_bool(0.5), root_doc: r.gen_bool(0.3), p_doc: *pick(&mut r, &[0.0, 0.2, 0.5]), empty_doc: r.gen_bool(0.25), ..TreeCfg::default() };
 		let mut a = gen_tree(&mut r, &cfg);
 		let mut b = a.clone();
 		let conflicts = r.gen_bool(0.3);
